@@ -851,6 +851,9 @@ with PolarsImpl.impl_store.impl_manager as impl:
         ):
             # polars' clip only supports numeric and temporal types
             return pl.when(x.is_not_null()).then(pl.max_horizontal(pl.min_horizontal(x, upper), lower))
+        if _sig[0].is_int() and (_sig[1].is_float() or _sig[2].is_float()):
+            # polars would truncate the float bounds to the integer type of `x`
+            x = x.cast(pl.Float64)
         return x.clip(lower, upper)
 
     @impl(ops.rand)
